@@ -62,6 +62,13 @@ class RustSRPAnalyzer(RustBaseAnalyzer):
         Returns:
             The type identifier name (e.g., "Foo" from "impl Foo {}")
         """
+        # An impl block names its target in the "type" field: `impl<T> Foo<T>` wraps the name in
+        # a generic_type, `impl Trait for Foo` puts the trait first
+        target = impl_node.child_by_field_name("type") if impl_node.type == "impl_item" else None
+        if target is not None and target.type == "generic_type":
+            target = next((c for c in target.children if c.type == "type_identifier"), None)
+        if target is not None and target.type == "type_identifier":
+            return self.extract_node_text(target)
         for child in impl_node.children:
             if child.type == "type_identifier":
                 return self.extract_node_text(child)
